@@ -124,7 +124,7 @@ func rowsOfKind(kind string, bitDepth uint) []uint64 {
 		}
 		return out
 	default:
-		return []uint64{0, 1, 100}
+		return []uint64{0, 1, 99, 100}
 	}
 }
 
@@ -505,11 +505,21 @@ func (r *runner) open(maxopn string) error {
 
 func (r *runner) close() {
 	if r.f != nil {
-		pv, _ := behav.Protect(func() {
-			_ = r.drain()
-			_ = r.f.Close()
-		})
-		_ = pv
+		// after a panic inside the code under test the fragment may never finish closing
+		// (Close waits for a snapshot that will not come): give it a second, then leave it
+		done := make(chan struct{})
+		go func() {
+			defer close(done)
+			_, _ = behav.Protect(func() {
+				_ = r.drain()
+				_ = r.f.Close()
+			})
+		}()
+		select {
+		case <-done:
+		case <-time.After(time.Second):
+			r.cov("close_abandoned_after_failure")
+		}
 	}
 	removeFragFiles(r.path)
 }
